@@ -209,6 +209,19 @@ SPECS = {
         ("mesh_moved_keeps_simu_cache", SIMU, "            # the nodes moved: values cached per group of elements (e.g. element mass matrices) are stale\n            clear_cached_computed_values(self)\n", ""),
         ("set_iter_keeps_matrices", SIMU, "        self.__Init_Sols_n()\n\n        self.Need_Update()  # need to reconstruct matrices", "        self.__Init_Sols_n()"),
     ],
+    "C15": [
+        ("getter_returns_live_array", SIMU, "        arr = self.__dict_u_n[problemType].copy()\n        if not asCsrMatrix:\n            return arr\n        Ndof = self.__Get_Ndof(problemType)\n        rows = np.arange(arr.size, dtype=int)\n        cols = np.zeros_like(rows)\n        return sparse.csr_matrix((arr, (rows, cols)), shape=(Ndof, 1))\n\n    def __Set_u_n", "        arr = self.__dict_u_n[problemType]\n        if not asCsrMatrix:\n            return arr\n        Ndof = self.__Get_Ndof(problemType)\n        rows = np.arange(arr.size, dtype=int)\n        cols = np.zeros_like(rows)\n        return sparse.csr_matrix((arr, (rows, cols)), shape=(Ndof, 1))\n\n    def __Set_u_n"),
+        ("set_iter_skips_mesh_switch", SIMU, "        if indexMesh != self.__indexMesh:\n            self.__indexMesh = indexMesh\n            self.__Update_mesh(indexMesh)", "        if indexMesh > self.__indexMesh:\n            self.__indexMesh = indexMesh\n            self.__Update_mesh(indexMesh)"),
+        ("disk_entry_follows_folder", SIMU, "            self.__list_results.append(path)\n", "            self.__list_results.append(Folder.os.path.relpath(path, self.folder))\n"),
+        ("elastic_accel_saved_as_speed", R + "Simulations/_elastic.py", "            iter[\"accel\"] = self.accel", "            iter[\"accel\"] = self.speed"),
+        ("thermal_dot_not_restored", R + "Simulations/_thermal.py", "        if self.algo == AlgoType.parabolic and \"thermalDot\" in results:\n            v = results[\"thermalDot\"]", "        if self.algo == AlgoType.parabolic and \"thermaldot\" in results:\n            v = results[\"thermalDot\"]"),
+        ("inelastic_set_iter_keeps_state", R + "Simulations/_inelastic.py", "        self.__zOld = {et: a.copy() for et, a in results.get(\"state\", {}).items()}\n", "        self.__zOld = {et: a.copy() for et, a in results.get(\"State\", self.__zOld).items()}\n"),
+        ("phasefield_history_not_restored", R + "Simulations/_phasefield.py", "        if \"psiP_history\" in results:", "        if \"psiP_history\" in results and resetAll:"),
+        ("phasefield_damage_restored_from_live", R + "Simulations/_phasefield.py", "        self._Set_solutions(damageType, results[damageType])", "        self._Set_solutions(damageType, results.get(\"Damage\", self.damage))"),
+        ("mesh_save_drops_tags", MESH, "            dict_nodes_tags = groupElem._dict_nodes_tags\n", "            dict_nodes_tags = {t: n for t, n in groupElem._dict_nodes_tags.items() if not t.startswith(\"P\")}\n"),
+        ("hyperelastic_speed_saved_stale", R + "Simulations/_hyperelastic.py", "            iter[\"speed\"] = self._Get_v_n(self.problemType)", "            iter[\"speed\"] = self._Get_a_n(self.problemType)"),
+        ("weakforms_v_saved_as_u", R + "Simulations/_weakforms.py", "            iter[\"u\"] = self.u\n            iter[\"v\"] = self.v\n\n        elif", "            iter[\"u\"] = self.u\n            iter[\"v\"] = self.u\n\n        elif"),
+    ],
 }
 
 
